@@ -378,12 +378,17 @@ class QueryPlanner:
         # split to select from api database
         #     keep only limit and where
         #     the rest goes to outer select
+        limit = query.limit
+        if limit is not None and query.offset is not None \
+                and isinstance(limit.value, int) and isinstance(query.offset.value, int):
+            # the rows that OFFSET skips afterwards have to be fetched too
+            limit = Constant(limit.value + query.offset.value)
         query2 = Select(
             targets=query.targets,
             from_table=query.from_table,
             where=query.where,
             order_by=query.order_by,
-            limit=query.limit,
+            limit=limit,
         )
         prev_step = self.plan_integration_select(query2)
 
